@@ -38,16 +38,19 @@ Times == Grid \cup {Never}
 RelayBeh == [cap : BOOLEAN, ackAt : Times, nack : BOOLEAN]
 
 \* scenario: [direct (arrival of the target's own ack), relays (sequence of RelayBeh),
-\*            tcp ("off" | "fail" | "ok"), foreignAck / foreignNack (arrival of an ack / nack with
+\*            tcp ("off" | "fail" | "ok" | "late": the fallback stream answers only after the deadline),
+\*            sendErr (the ping cannot even be handed to the transport: a local, non-remote error),
+\*            foreignAck / foreignNack (arrival of an ack / nack with
 \*            another sequence number), dupAck (the direct ack arrives twice), score0]
 
 InTime(t) == t # Never /\ t < PI
 
-\* indirect probers are only asked after the direct wait failed (PT)
-Escalated(s) == ~(s.direct # Never /\ s.direct < PT)
+\* indirect probers are only asked after the direct wait failed (PT); a probe whose ping could not be
+\* sent ends at once: nobody is asked, nobody is suspected, the health score does not move
+Escalated(s) == ~s.sendErr /\ ~(s.direct # Never /\ s.direct < PT)
 
 AckSeen(s) ==
-  \/ InTime(s.direct)
+  \/ (~s.sendErr /\ InTime(s.direct))
   \/ (Escalated(s) /\ \E i \in DOMAIN s.relays : InTime(s.relays[i].ackAt))
 
 Answered(s) == AckSeen(s) \/ (Escalated(s) /\ s.tcp = "ok")
@@ -60,13 +63,13 @@ NacksSeen(s) == IF Escalated(s)
                                                              /\ 2 * PT < PI})
                 ELSE 0
 
-Delta(s) == IF Answered(s) THEN -1
+Delta(s) == IF s.sendErr THEN 0 ELSE IF Answered(s) THEN -1
             ELSE IF ExpectedNacks(s) > 0 THEN ExpectedNacks(s) - NacksSeen(s) ELSE 1
 
 Clamp(x) == IF x < 0 THEN 0 ELSE IF x > AwMax - 1 THEN AwMax - 1 ELSE x
 ScoreAfter(s) == Clamp(s.score0 + Delta(s))
 
-Outcome(s) == [answered |-> Answered(s), suspect |-> ~Answered(s), delta |-> Delta(s), score |-> ScoreAfter(s),
+Outcome(s) == [answered |-> Answered(s), suspect |-> ~Answered(s) /\ ~s.sendErr, delta |-> Delta(s), score |-> ScoreAfter(s),
                escalated |-> Escalated(s), expectedNacks |-> ExpectedNacks(s)]
 
 
